@@ -916,6 +916,13 @@ class W3LeafMatcher(LeafMatcher):
         # Consume first block
         self._goto(self._baseoffset)
 
+    def copy(self):
+        # The cursor state is held in plain attributes and loaded block data
+        # is never mutated in place, so a shallow copy is an independent cursor
+        m = object.__new__(self.__class__)
+        m.__dict__.update(self.__dict__)
+        return m
+
     def _goto(self, position):
         # Read the posting block at the given position
 
